@@ -55,7 +55,7 @@ func main() {
 		fmt.Printf("loaded in %.1fs; scratch %s\n", e.loadTime, e.scratch)
 		names := matchFuncs(e, fs.Arg(0))
 		sort.Strings(names)
-		var all []*Oblig
+		var all, canaries []*Oblig
 		for _, n := range names {
 			run, err := e.Verify(n)
 			if err != nil {
@@ -63,6 +63,7 @@ func main() {
 				continue
 			}
 			all = append(all, run.obligs...)
+			canaries = append(canaries, run.canaries...)
 			for _, nt := range run.notes {
 				fmt.Printf("  note[%s]: %s\n", run.name, nt)
 			}
@@ -82,11 +83,19 @@ func main() {
 				if o.Result.Status == "sat" {
 					fmt.Printf("       model: %s\n", compactModel(o.Result.Output))
 				}
+				if o.Candidate != nil {
+					fmt.Printf("       candidate: %s\n", compactModel(o.Candidate.Output))
+				}
 				if o.Result.Status == "error" {
 					fmt.Printf("       %s\n", firstLines(o.Result.Output, 3))
 				}
 			}
 		}
+		vac := e.DischargeCanaries(canaries, 3)
+		for _, o := range vac {
+			fmt.Printf("  VACUOUS %s: %s\n", o.Name, o.Text)
+		}
+		fmt.Printf("%d canaries, %d vacuous\n", len(canaries), len(vac))
 		fmt.Printf("%d obligations: %d discharged, %d not; backends %v; solver time %.1fs\n", len(all), ok, bad, stats.ByBackend, stats.Time)
 		if !*keep {
 			os.RemoveAll(e.scratch)
